@@ -15,6 +15,17 @@ var LibLoader = packagelib.Loader{
 	Load: Load,
 }
 
+func init() {
+	// These Go functions are shared by all runtimes: declare their compliance
+	// once, not every time a runtime loads the library (runtimes may be
+	// created concurrently).
+	rt.SolemnlyDeclareCompliance(
+		rt.ComplyCpuSafe|rt.ComplyMemSafe|rt.ComplyTimeSafe|rt.ComplyIoSafe,
+		ipairsIterator,
+		nextGoFunc,
+	)
+}
+
 func Load(r *rt.Runtime) (rt.Value, func()) {
 	env := r.GlobalEnv()
 	r.SetEnv(env, "_G", rt.TableValue(env))
@@ -24,8 +35,6 @@ func Load(r *rt.Runtime) (rt.Value, func()) {
 	rt.SolemnlyDeclareCompliance(
 		rt.ComplyCpuSafe|rt.ComplyMemSafe|rt.ComplyTimeSafe|rt.ComplyIoSafe,
 
-		ipairsIterator,
-		nextGoFunc,
 		r.SetEnvGoFunc(env, "assert", assert, 1, true),
 		r.SetEnvGoFunc(env, "error", errorF, 2, false),
 		r.SetEnvGoFunc(env, "getmetatable", getmetatable, 1, false),
